@@ -170,7 +170,11 @@ class ModbusTransactionManager(object):
                             break
                         elif not self.retry_on_invalid:
                             break
-                        mbap = self.client.framer.decode_data(response)
+                        try:
+                            mbap = self.client.framer.decode_data(response)
+                        except (ValueError, struct.error):
+                            # not even a frame header: as invalid as it gets
+                            mbap = {}
                         if (mbap.get('unit') == request.unit_id):
                             break
                         if ('length' in mbap and expected_response_length and
